@@ -694,7 +694,7 @@ class Madgwick:
         if np.linalg.norm(gyr) == 0:
             return q.to_array()
         if np.linalg.norm(mag) == 0:
-            return self.updateIMU(q, gyr, acc)
+            return self.updateIMU(q, gyr, acc, dt=dt)
         qDot = 0.5 * q.product([0, *gyr])                           # (eq. 12)
         a_norm = np.linalg.norm(acc)
         if a_norm > 0:
